@@ -19,7 +19,10 @@ def status_table():
         part = "; ".join(x if isinstance(x, str) else json.dumps(x) for x in c.get("partial", [])) or "–"
         part = part.replace("|", "/")
         if len(part) > 420: part = part[:417] + "…"
-        tie = "C+G" if c.get("pre_cmds") else "C"
+        def reads_repo(cmd):
+            try: return "VERIF_REPO" in open(os.path.join(ROOT, cmd[-1])).read()
+            except Exception: return False
+        tie = "C+G" if any(reads_repo(x) for x in c.get("pre_cmds", [])) else "C"
         rows.append(f"| {c['id']} | {n} | {tie} | {gens} | {part} |")
     return "\n".join(rows)
 def findings_table():
